@@ -149,6 +149,8 @@ def get(variant, repo=REPO, quiet=False, keep_tree=False):
     if variant not in VARIANTS:
         raise KeyError(variant)
     th = tree_hash(repo)
+    if variant.startswith("cpu-"):
+        th = hashlib.sha256((th + "/recipe2").encode()).hexdigest()[:20]      # recipe changed (host-ISA check): older cache entries are not reused
     os.makedirs(CACHE, exist_ok=True)
     ent = os.path.join(CACHE, "%s-%s" % (th, variant))
     lock = open(os.path.join(CACHE, ".lock-%s-%s" % (th, variant)), "w")
